@@ -247,6 +247,18 @@ func c16Monitor(m *vk.Meta, in c10In, out c10Out) {
 		if st == nil || st.SlaveState == nil || !mv.ToKnown {
 			continue // status unknown: the blind path (not a guarded move)
 		}
+		// the aggressive reset algorithm (C10: only after the start attempts are exhausted, i.e. on a replica that is
+		// NOT replicating) wipes the channel and re-points at the master: not a move of a replicating replica
+		reset := false
+		for _, e := range p.Trans {
+			if e.Host == mv.Host && e.Kind == "SResetReplAll" {
+				reset = true
+			}
+		}
+		if reset && st.SlaveState.ReplicationState != mysql.ReplicationRunning {
+			m.Count("reset_algorithm_moves")
+			continue
+		}
 		if !vk.GtidContains(mv.ToExec, mv.MyExec) {
 			m.Violation("a replicating cascade replica is moved to another source only once that source's transactions contain its own", in,
 				fmt.Sprintf("pass %d: %s (%s) -> %s (%s)", mv.Pass, mv.Host, mv.MyExec, mv.To, mv.ToExec))
